@@ -508,6 +508,25 @@ func (x *Exec) evalPseudo(name string, n *ast.CallExpr, st *State, env *Env) (Va
 			return Val{T: app("int.sorted", app("select", x.heap(st, "Int"), ref), off, ln), Ty: tBool}, true
 		}
 		panic(unsupported("sorted() on " + sv.Ty.String()))
+	case "opkind": // opkind(op): the CIGAR operation letter of a biogo CigarOp
+		v := x.eval(n.Args[0], st, env)
+		return Val{T: app("cig.typestr", app("cig.type", v.T)), Ty: tString}, true
+	case "oplen":
+		v := x.eval(n.Args[0], st, env)
+		return Val{T: app("cig.len", v.T), Ty: tInt}, true
+	case "mapkey", "mapidx":
+		// enumeration of the innermost `range` over a map: mapkey(t) is the key visited at step t, mapidx(k) the step of key k
+		f, ok := x.baseFuncs[name]
+		if !ok {
+			panic(unsupported(name + "() outside a range-over-map loop"))
+		}
+		v := x.eval(n.Args[0], st, env)
+		if name == "mapkey" {
+			v = x.defaultType(v)
+			return Val{T: app(f.T, v.T), Ty: f.Ty}, true
+		}
+		v = x.coerce(v, f.Ty)
+		return Val{T: app(f.T, v.T), Ty: tInt}, true
 	case "uselemma":
 		// uselemma(name, args…): instance of a lemma that is proved separately (obligation lemma.<name>); the instance is
 		// added to the assumptions and is also the value of the call. Not to be used under a quantifier.
@@ -572,6 +591,10 @@ func (x *Exec) evalPseudo(name string, n *ast.CallExpr, st *State, env *Env) (Va
 		a := x.eval(n.Args[0], st, env)
 		b := x.eval(n.Args[1], st, env)
 		return Val{T: and(eq(x.c.accessor("s.ref", a.T), x.c.accessor("s.ref", b.T)), eq(x.c.accessor("s.off", a.T), x.c.accessor("s.off", b.T))), Ty: tBool}, true
+	case "samearray": // the two slices are views of the same backing array
+		a := x.eval(n.Args[0], st, env)
+		b := x.eval(n.Args[1], st, env)
+		return Val{T: eq(x.c.accessor("s.ref", a.T), x.c.accessor("s.ref", b.T)), Ty: tBool}, true
 	case "sameslice":
 		a := x.eval(n.Args[0], st, env)
 		b := x.eval(n.Args[1], st, env)
@@ -630,9 +653,75 @@ func (cs *ContractSet) lookupSpec(pkg, name string) *SpecFunc {
 	return nil
 }
 
+// applyPred: an abstract predicate `pred name(params) = body`. It is an uninterpreted predicate symbol over the scalar
+// arguments and, for each slice argument, its (array, offset, length); one definitional axiom ties it to the body. Nested
+// quantifiers in the body are thereby hidden behind a symbol, which keeps instantiation of enclosing quantifiers simple.
+func (x *Exec) applyPred(sf *SpecFunc, n *ast.CallExpr, st *State, env *Env) Val {
+	c := x.c
+	fname := "pred." + sf.Name
+	var actual []string
+	type pinfo struct {
+		ty    types.Type
+		slice bool
+		es    string
+	}
+	var infos []pinfo
+	for i, a := range n.Args {
+		pty := x.resolveTypeText(sf.Params[i].Type)
+		v := x.coerce(x.eval(a, st, env), pty)
+		if sl, ok := pty.Underlying().(*types.Slice); ok {
+			es := c.sortOf(sl.Elem())
+			ref, off, ln, _ := x.sliceParts(v)
+			actual = append(actual, app("select", x.heap(st, es), ref), off, ln)
+			infos = append(infos, pinfo{pty, true, es})
+		} else {
+			actual = append(actual, v.T)
+			infos = append(infos, pinfo{pty, false, ""})
+		}
+	}
+	if !c.declared[fname] {
+		var sorts, decls, formals []string
+		ne := &Env{contract: true, names: map[string]Val{}, pkg: env.pkg}
+		repl := map[string]string{}
+		for i, p := range sf.Params {
+			inf := infos[i]
+			if inf.slice {
+				A, o, ln, r := "pA"+p.Name, "po"+p.Name, "pn"+p.Name, "pr"+p.Name+"$"
+				sorts = append(sorts, "(Array Int "+inf.es+")", "Int", "Int")
+				decls = append(decls, fmt.Sprintf("(%s (Array Int %s))", A, inf.es), fmt.Sprintf("(%s Int)", o), fmt.Sprintf("(%s Int)", ln))
+				formals = append(formals, A, o, ln)
+				ne.names[p.Name] = Val{T: app("mkSlice", r, o, ln, ln), Ty: inf.ty}
+				repl["(select "+x.heap(st, inf.es)+" "+r+")"] = A
+			} else {
+				s := c.sortOf(inf.ty)
+				sorts = append(sorts, s)
+				decls = append(decls, fmt.Sprintf("(pp%s %s)", p.Name, s))
+				formals = append(formals, "pp"+p.Name)
+				ne.names[p.Name] = Val{T: "pp" + p.Name, Ty: inf.ty}
+			}
+		}
+		c.inContract++
+		body := x.defaultType(x.eval(sf.Body, st, ne)).T
+		c.inContract--
+		for k, v := range repl {
+			body = strings.ReplaceAll(body, k, v)
+		}
+		if strings.Contains(body, "$") {
+			panic(unsupported("pred " + sf.Name + ": a slice parameter is used other than by reading its elements"))
+		}
+		c.declare(fname, fmt.Sprintf("(declare-fun %s (%s) Bool)", fname, strings.Join(sorts, " ")))
+		call := app(fname, formals...)
+		c.decls = append(c.decls, fmt.Sprintf("(assert (forall (%s) (! (= %s %s) :pattern (%s))))", strings.Join(decls, " "), call, body, call))
+	}
+	return Val{T: app(fname, actual...), Ty: tBool}
+}
+
 func (x *Exec) applySpec(sf *SpecFunc, n *ast.CallExpr, st *State, env *Env) Val {
 	if len(n.Args) != len(sf.Params) {
 		panic(unsupported("spec function " + sf.Name + ": wrong argument count"))
+	}
+	if sf.IsPred {
+		return x.applyPred(sf, n, st, env)
 	}
 	rty := x.resolveTypeText(sf.Result)
 	var args []Val
@@ -822,6 +911,8 @@ func (x *Exec) evalCount(n *ast.CallExpr, st *State, env *Env) Val {
 	return Val{T: app(fn, args...), Ty: tInt}
 }
 
+var reBound = regexp.MustCompile(`\(\(([A-Za-z_][A-Za-z0-9_.]*![0-9]+) `)
+
 // dominantOffset finds the most frequent X in subterms "(+ X v)" of t.
 func dominantOffset(t, v string) string {
 	counts := map[string]int{}
@@ -847,6 +938,19 @@ func dominantOffset(t, v string) string {
 			x := t[j+3 : i]
 			if strings.Count(x, "(") == strings.Count(x, ")") && !strings.Contains(x, v) {
 				counts[x]++
+			}
+		}
+	}
+	// an offset that mentions a variable bound inside t is not in scope outside it
+	inner := map[string]bool{}
+	for _, m := range reBound.FindAllStringSubmatch(t, -1) {
+		inner[m[1]] = true
+	}
+	for k := range counts {
+		for b := range inner {
+			if strings.Contains(k, b) {
+				delete(counts, k)
+				break
 			}
 		}
 	}
